@@ -18,7 +18,7 @@ func (r *RNG) Intn(n int) int {
 	}
 	return int(r.U64() % uint64(n))
 }
-func (r *RNG) Bool() bool      { return r.U64()&1 == 1 }
+func (r *RNG) Bool() bool          { return r.U64()&1 == 1 }
 func (r *RNG) P(num, den int) bool { return r.Intn(den) < num }
 func (r *RNG) Bytes(n int) []byte {
 	b := make([]byte, n)
@@ -33,5 +33,5 @@ func (r *RNG) Read(p []byte) (int, error) {
 	}
 	return len(p), nil
 }
-func (r *RNG) Fork() *RNG { return NewRNG(r.U64()) }
+func (r *RNG) Fork() *RNG          { return NewRNG(r.U64()) }
 func pick[T any](r *RNG, xs []T) T { return xs[r.Intn(len(xs))] }
